@@ -9,7 +9,8 @@ cfg = json.load(open(f"{V}/props/{pid}.json"))
 out = f"{V}/out/{pid}"
 os.makedirs(out + "/smt", exist_ok=True)
 cmd = [f"{V}/bin/govc", "-repo", "/repo", "-spec", f"{V}/govc/spec", "-funcs", ",".join(cfg.get("functions", [])),
-       "-out", out + "/smt", "-json", out + "/claims_run.json", "-timeout", "10", "-j", "14"]
+       "-out", out + "/smt", "-json", out + "/claims_run.json", "-timeout", "10", "-j", "14",
+       "-locals-out", f"{V}/claims/{pid}.locals.json"]
 if cfg.get("lemmas"):
     cmd += ["-lemmas", ",".join(cfg["lemmas"])]
 env = dict(os.environ, GOFLAGS="-mod=mod", GOPROXY="off", GOSUMDB="off", GOTOOLCHAIN="local")
